@@ -65,6 +65,45 @@ def run_pydoctor(srcpaths: Sequence[str], out: str, privacy: Sequence[str] = (),
     return rc, (captured[0] if captured else None), buf.getvalue()
 
 
+def run_history(root: str, hist: Sequence[str], out: str, privacy: Sequence[str] = (), theme: str = "classic",
+                extra: Sequence[str] = ()) -> Tuple[Any, List[Dict[str, str]]]:
+    """
+    A behaviour of spec/PrivacyHistory.tla replayed through the public builder API: incremental build of the modules
+    _impl and api found in `root`, privacy queries on the real objects in between, driver.make at Render.
+    Returns (system, answers of the queries).
+    """
+    import contextlib
+    import io
+    from pydoctor import driver
+    from pydoctor.options import Options
+
+    args = ["--make-html", "--html-output", out, "--project-name", "P", "--theme", theme, "-q", "-q"]
+    args += ["--privacy=" + p for p in privacy] + list(extra)
+    asked: List[Dict[str, str]] = []
+    names = {"impl": {"K": "_impl.Moved", "F": "_impl.Moved.mm", "G": "_impl.Moved.other"},
+             "api": {"K": "api.Moved", "F": "api.Moved.mm", "G": "api.Moved.other"}}
+    loc = "impl"
+    with contextlib.redirect_stdout(io.StringIO()), contextlib.redirect_stderr(io.StringIO()):
+        options = Options.from_args(args)
+        system = options.systemclass(options)
+        system.projectname = "P"
+        builder = system.systemBuilder(system)
+        for step in hist:
+            if step == "BuildImpl":
+                builder.addModule(Path(root) / "_impl.py")
+                builder.buildModules()
+            elif step == "BuildApi":
+                builder.addModule(Path(root) / "api.py")
+                builder.buildModules()
+                loc = "api"
+            elif step.startswith("Query:"):
+                o = system.allobjects[names[loc][step.split(":", 1)[1]]]
+                asked.append({"name": o.fullName(), "priv": o.privacyClass.name, "visible": str(bool(o.isVisible))})
+            elif step == "Render":
+                driver.make(system)
+    return system, asked
+
+
 def project_system(system: Any) -> Dict[str, Any]:
     """The object model the way the real System holds it, in the vocabulary of Site.tla."""
     from pydoctor import model
@@ -383,6 +422,18 @@ def _entries(soup: Any, page: str, site: Dict[str, Any], indexpage: bool = False
                     if owner and label:
                         site["entries"].append({"page": page, "kind": "table", "file": "", "frag": "", "ref": owner + "." + label,
                                                 "private": _has_private(tr), "under_private": under_private(tr)})
+    # "overrides <full name>" notes (get_override_info): an entry for the overridden member, linked or not
+    for info in soup.find_all("div", class_="interfaceinfo"):
+        if not info.get_text().strip().startswith("overrides"):
+            continue
+        a = _first_link(info)
+        if a is not None:
+            add("overridesNote", a, False, under_private(info))
+        else:
+            code = info.find("code")
+            if code is not None and code.get_text().strip():
+                site["entries"].append({"page": page, "kind": "overridesNote", "file": "", "frag": "", "ref": code.get_text().strip(),
+                                        "private": False, "under_private": under_private(info)})
     cl = soup.find(id="childList")
     if cl is not None:
         for div in cl.find_all("div", recursive=False):
